@@ -362,7 +362,7 @@ class Interp:
                 return v
             if vartype == "float":
                 if self.symbolic:
-                    return T.V("float", T.to_real(v.re))
+                    return T.V("float", T.to_f64(v.re))
                 return float(v)
             if self.symbolic:
                 return T.lift(v, "complex")
@@ -619,7 +619,18 @@ class Interp:
                     raise Reject("loopvalue", name)
                 return int(v)
             if vt == "float" and k == "int":
-                return T.V("float", T.to_real(v.re)) if self.symbolic else float(v)
+                # the same rule the other way round: an integer that no double represents exactly is not a float value
+                if self.symbolic:
+                    import z3
+                    conv = T.to_f64(v.re)
+                    if not z3.eq(conv, z3.ToReal(v.re)):
+                        exact = conv == z3.ToReal(v.re)
+                        if not self.forks.choose([(exact, True), (z3.Not(exact), False)]):
+                            raise Reject("loopvalue", name)
+                    return T.V("float", conv)
+                if float(v) != v:
+                    raise Reject("loopvalue", name)
+                return float(v)
             return v
         if vt == "bool":
             if isinstance(v, bool):
